@@ -71,6 +71,7 @@ inductive HOp where
   | ops (l : List Op)          -- plain model ops
   | leave (at_ : Nat)
   | localState
+  | sync2 (x : Name)           -- push/pull of this node's LocalState to a fresh peer that knows x as alive
   | bad
 
 def hasDupKeys (l : List (Name × Nat)) : Bool := (l.map (·.1)).eraseDups.length != l.length
@@ -81,6 +82,12 @@ def parseOp (f : List String) : HOp :=
     | some x => .ops [.nodeJoin x] | none => .bad
   | ["nl", n, t] => match stringOfHex? n, parseSmall t with
     | some x, some a => .ops [.nodeLeave x a] | _, _ => .bad
+  -- how memberlist says the node went away (StateDead / StateLeft) makes no difference to Serf:
+  -- leaving + ANY death notification = left, alive + any = failed
+  | ["nl", n, t, st] => match stringOfHex? n, parseSmall t with
+    | some x, some a => if st == "d" || st == "l" then .ops [.nodeLeave x a] else .bad | _, _ => .bad
+  | ["s2", n] => match stringOfHex? n with
+    | some x => .sync2 x | none => .bad
   | ["nu", n] => match stringOfHex? n with
     | some x => .ops [.nodeUpdate x] | none => .bad
   | ["mj", n, t] => match stringOfHex? n, parseLT t with
@@ -212,6 +219,14 @@ def modelLine (n : Node) (f : List String) : Node × String × HOp :=
   match h with
   | .bad => (n, "bad-op", h)
   | .localState => (n, showLocalState n, h)
+  | .sync2 x =>
+    -- a fresh peer that memberlist told about x, merging this node's LocalState (clock, every member's status time, left list)
+    let peer := (step (Node.init "peer" cfg) (.nodeJoin x)).1
+    let p' := (step peer (.merge n.clock (n.members.map fun q => (q.1, q.2.ltime)) n.left 0)).1
+    let view := match alookup p'.members x with
+      | some m => s!"{Status.str m.status}:{m.ltime}"
+      | none => "absent"
+    (n, s!"peer={view}", h)
   | _ =>
     let v := applyOps n (expand n h)
     (v.node, showVis v, h)
